@@ -62,6 +62,31 @@ type verifPacketConn struct {
 	yieldOnDeadline bool
 	writeFailAt     int // the k-th write (1-based) fails
 	mu              sync.Mutex
+	closedCh        chan struct{}
+	// reads wait (instead of timing out) while no read deadline was ever armed, as on a real socket
+	blocksWithoutDeadline bool
+}
+
+// a socket on which no read deadline was ever armed does not time out: a read on it waits until
+// the socket is closed
+func (c *verifPacketConn) waitsForever() (bool, chan struct{}) {
+	c.mu.Lock()
+	defer c.mu.Unlock()
+	if _, isTimeout := c.endErr.(verifTimeoutErr); !isTimeout || !c.blocksWithoutDeadline {
+		return false, nil
+	}
+	for _, d := range c.deadlines {
+		if !d.IsZero() {
+			return false, nil
+		}
+	}
+	if c.closed > 0 {
+		return false, nil
+	}
+	if c.closedCh == nil {
+		c.closedCh = make(chan struct{})
+	}
+	return true, c.closedCh
 }
 
 func (c *verifPacketConn) ReadFrom(p []byte) (int, net.Addr, error) {
@@ -69,6 +94,15 @@ func (c *verifPacketConn) ReadFrom(p []byte) (int, net.Addr, error) {
 		c.readsAfterClose++
 	}
 	if c.readPos >= len(c.reads) {
+		if wait, ch := c.waitsForever(); wait {
+			<-ch // woken by Close or by a deadline being armed
+			c.mu.Lock()
+			closed := c.closed > 0
+			c.mu.Unlock()
+			if closed {
+				return 0, nil, net.ErrClosed
+			}
+		}
 		if c.endErr != nil {
 			return 0, nil, c.endErr
 		}
@@ -117,6 +151,10 @@ func (c *verifPacketConn) Writes() []verifWrite {
 func (c *verifPacketConn) Close() error {
 	c.mu.Lock()
 	c.closed++
+	if c.closed == 1 && c.closedCh != nil {
+		close(c.closedCh)
+		c.closedCh = nil
+	}
 	c.mu.Unlock()
 	return nil
 }
@@ -134,6 +172,10 @@ func (c *verifPacketConn) SetReadDeadline(t time.Time) error {
 		return net.ErrClosed
 	}
 	c.deadlines = append(c.deadlines, t)
+	if !t.IsZero() && c.closedCh != nil && c.closed == 0 {
+		close(c.closedCh)
+		c.closedCh = nil
+	}
 	c.mu.Unlock()
 	if c.yieldOnDeadline && verifNative() {
 		time.Sleep(20 * time.Microsecond) // widen the window after the call for native replays
